@@ -84,7 +84,12 @@ def gen_stmt(rnd, depth, in_macro, macros, in_loop):
     if r < 0.60:
         var = rnd.choice(["i", "i", name])
         orelse = [("out", ("v", rnd.choice(NAMES))), ("text", "e")] if rnd.random() < 0.4 else None
-        return [("for", var, rnd.choice(["xs", "ys"]), gen_body(rnd, depth + 1, in_macro, macros, in_loop + 1), orelse, rnd.random() < 0.3)] + obs
+        if orelse is not None and in_loop and rnd.random() < 0.6:
+            orelse.append(("out", ("loopidx",)))       # the else branch belongs to the enclosing scope: the outer loop's `loop`
+        body = gen_body(rnd, depth + 1, in_macro, macros, in_loop + 1)
+        if rnd.random() < 0.35:
+            body.append(("out", ("loopidx",)))
+        return [("for", var, rnd.choice(["xs", "ys"]), body, orelse, rnd.random() < 0.3)] + obs
     if r < 0.68:
         return [("with", name, gen_expr(rnd, in_macro), gen_body(rnd, depth + 1, in_macro, macros, in_loop))] + obs
     if r < 0.75:
@@ -170,6 +175,8 @@ def _ref(ctx):
         return ("exc", "TemplateRuntimeError", [tuple(M.normalize_value(v) for v in r) for r in it.log])
     except TypeError:
         return ("exc", "TypeError", [tuple(M.normalize_value(v) for v in r) for r in it.log])
+    except M.TplUndefined:
+        return ("exc", "UndefinedError", [tuple(M.normalize_value(v) for v in r) for r in it.log])
     return ("ok", text, [tuple(M.normalize_value(v) for v in r) for r in log])
 
 
